@@ -6,6 +6,7 @@ package c19
 
 import (
 	"fmt"
+	"math"
 	"math/rand"
 	"sort"
 	"strings"
@@ -25,7 +26,7 @@ func init() {
 		Rule: "cases: pairs (tree, perturbed copy): every single-point perturbation (change scalar, change kind, delete member, add member, nil a member, truncate / extend array) of each generated tree, 2-5 point perturbations, unrelated pairs, identical pairs and numeric-width variants (every signed and unsigned width, uint64 leaves above MaxInt64 equal or differing by one); " +
 			"ignore sets: none, a path at / above / below / beside a difference, wildcard elements, several paths through different indexes of one array, several paths of any kind preceded by decoy paths beside them; simple and gen pairs; fingerprints for Match: sub-trees of the target, perturbed sub-trees, explicit nils. " +
 			"Checked: Diff empty iff the reference diff (minus ignored locations) is empty, every returned path is a genuine difference location (soundness), every differing location is covered by a returned path or an ignore path (completeness), Compare nil iff Diff empty and among Diff's paths, Match equals the reference. " +
-			"non-trivial: the pair differs in at least one location or carries an ignore path; distinct by digest of (a, b, ignores)",
+			"also uint64 leaves above MaxInt64 against the negative int64 with the same bit pattern (different numbers). non-trivial: the pair differs in at least one location or carries an ignore path; distinct by digest of (a, b, ignores)",
 		Assumptions: []string{
 			"int-versus-float comparisons are don't-care (the statement speaks of numeric width, not kind); such pairs are not generated",
 			"when two arrays differ in length every index from min(len) up is a difference location; a returned path prefix+[i] with i >= min(len) covers all of them (Diff reports the first surplus index and stops)",
@@ -57,7 +58,7 @@ func lk(l []any) string {
 }
 
 type delta struct {
-	mixed bool // an int was compared with a float somewhere: don't-care
+	mixed bool  // an int was compared with a float somewhere: don't-care
 	leaf  []loc // locations where kind or scalar value differs (the diff stops there)
 	// surplus: arrays of different length: prefix and min length
 	surplus []struct {
@@ -93,6 +94,18 @@ func asInt(v any) (int64, bool) {
 		return int64(t), true
 	}
 	return 0, false
+}
+
+// beyondInt64 tells the unsigned values above MaxInt64 from everything else: asInt keeps their bits, so two
+// values are the same number iff the bits agree and both or neither lie beyond the int64 range.
+func beyondInt64(v any) bool {
+	switch t := v.(type) {
+	case uint64:
+		return t > math.MaxInt64
+	case uint:
+		return uint64(t) > math.MaxInt64
+	}
+	return false
 }
 
 func asFloat(v any) (float64, bool) {
@@ -151,7 +164,7 @@ func refDiff(a, b any, pre loc, d *delta) {
 		}
 		if ia, ok := asInt(a); ok {
 			if ib, ok2 := asInt(b); ok2 {
-				if ia != ib {
+				if ia != ib || beyondInt64(a) != beyondInt64(b) {
 					d.leaf = append(d.leaf, pre)
 				}
 				return
@@ -534,7 +547,7 @@ func refMatch(f, t any) bool {
 	}
 	if ia, ok := asInt(f); ok {
 		ib, ok2 := asInt(t)
-		return ok2 && ia == ib
+		return ok2 && ia == ib && beyondInt64(f) == beyondInt64(t)
 	}
 	if fa, ok := asFloat(f); ok {
 		fb, ok2 := asFloat(t)
@@ -601,6 +614,25 @@ func bumpHuge(r *rand.Rand, v any) any {
 	case map[string]any:
 		for k, e := range t {
 			t[k] = bumpHuge(r, e)
+		}
+	}
+	return v
+}
+
+// wrapHuge replaces some of the uint64 leaves above MaxInt64 by the int64 that has the same bits.
+func wrapHuge(r *rand.Rand, v any) any {
+	switch t := v.(type) {
+	case uint64:
+		if t > math.MaxInt64 && r.Intn(2) == 0 {
+			return int64(t)
+		}
+	case []any:
+		for i, e := range t {
+			t[i] = wrapHuge(r, e)
+		}
+	case map[string]any:
+		for k, e := range t {
+			t[k] = wrapHuge(r, e)
 		}
 	}
 	return v
@@ -689,8 +721,12 @@ func run(c *mon.Ctx) {
 				// ids and hashes: uint64 leaves above MaxInt64, the same on both sides or differing by one
 				a = hugeLeaves(r, a)
 				b = treegen.Dup(a)
-				if r.Intn(2) == 0 {
+				switch r.Intn(3) {
+				case 0:
 					b = bumpHuge(r, b)
+				case 1:
+					// the negative int64 with the same bit pattern: a different number
+					b = wrapHuge(r, b)
 				}
 			}
 			b = widen(r, b)
